@@ -4,7 +4,7 @@ from __future__ import annotations
 import ast
 import typing as T
 
-from ..core import Undecided, Module, norm, short, attr_chain, call_name, call_method, walk_no_nested, kwarg
+from ..core import Undecided, Module, norm, short, attr_chain, call_name, call_method, walk_no_nested, kwarg, decorator_names
 from ..cfg import Node
 from ..report import Rule, RuleCtx
 from .. import tables
@@ -120,6 +120,24 @@ def _passes(mod: Module, c: ast.Call, qn: str, var: str, param_index: int = 0) -
         return False
     v = dict.get(b, ps[param_index])
     return isinstance(v, ast.Name) and v.id == var
+
+
+def _uses_file(c: ast.Call, fileparam: str) -> bool:
+    """A call that can write to the file: a method of it (write, writelines, ...) or any call that receives it (print(file=f), a helper)."""
+    if isinstance(c.func, ast.Attribute) and isinstance(c.func.value, ast.Name) and c.func.value.id == fileparam:
+        return True
+    return any(isinstance(a, ast.Name) and a.id == fileparam for a in list(c.args) + [k.value for k in c.keywords])
+
+
+def _written_exprs(c: ast.Call) -> T.List[ast.AST]:
+    """The text expressions a file-writing call emits: its arguments, with list/tuple displays (writelines) opened."""
+    out: T.List[ast.AST] = []
+    for a in list(c.args) + [k.value for k in c.keywords if k.arg not in ('file', 'end', 'sep', 'flush')]:
+        if isinstance(a, (ast.List, ast.Tuple)):
+            out.extend(a.elts)
+        else:
+            out.append(a)
+    return out
 
 
 def _absence_provable(info: L.FnInfo, what: str, param: T.Optional[str] = None, ignore: T.Iterable[str] = ()) -> None:
@@ -429,8 +447,7 @@ def r2b(ctx: RuleCtx) -> None:
     if not ps:
         raise Undecided('NinjaBuildElement.write has no file parameter')
     # a write: outfile.write(...) or handing the file to any other call (a helper that writes)
-    writes = [n for n in cfg.nodes if any(call_name(c) == f'{ps[0]}.write' or any(isinstance(a, ast.Name) and a.id == ps[0] for a in list(c.args) + [k.value for k in c.keywords])
-                                          for c in L.node_calls(n))]
+    writes = [n for n in cfg.nodes if any(_uses_file(c, ps[0]) for c in L.node_calls(n))]
     ctx.floor('statements of NinjaBuildElement.write that write to the file', len(writes), 1)
 
     def error_guards(fi: L.FnInfo, ws: T.List[Node], depth: int = 0) -> T.List[Node]:
@@ -890,15 +907,17 @@ def r3b(ctx: RuleCtx) -> None:
     # 3. NinjaRule.write: emits `rule <name>` when refcount, `rule <name>_RSP` when rsprefcount
     rw = infos.get('NinjaRule.write')
     header = None
+    rwp = _param_names(rw.fn)
     for n in rw.cfg.nodes:
         for c in L.node_calls(n):
-            if call_method(c) == 'write' and c.args:
-                try:
-                    p = _flatten_concat(L.inline_locals(rw, c.args[0], n))
-                except Undecided:
-                    continue
-                if len(p) > 1 and isinstance(p[0], str) and p[0].startswith('rule '):
-                    header = (n, p)
+            if rwp and _uses_file(c, rwp[0]):
+                for wa in _written_exprs(c):
+                    try:
+                        p = _flatten_concat(L.inline_locals(rw, wa, n))
+                    except Undecided:
+                        continue
+                    if len(p) > 1 and isinstance(p[0], str) and p[0].startswith('rule '):
+                        header = (n, p)
     if header is None:
         raise Undecided('NinjaRule.write: the statement that writes the `rule <name>` header was not found')
     hn, hp = header
@@ -1052,6 +1071,31 @@ def r4(ctx: RuleCtx) -> None:
                 outer = info.cfg.stmt_nodes(st)[0] if info.cfg.stmt_nodes(st) else None
                 nvar, dvar = (x.id for x in st.target.elts)  # type: ignore[union-attr]
                 rows = [(x.elts[0].value, x.elts[1]) for x in st.iter.elts]  # type: ignore[union-attr]
+            elif isinstance(st, ast.For) and isinstance(st.iter, (ast.List, ast.Tuple)) and isinstance(st.target, ast.Name) and st.iter.elts \
+                    and all(isinstance(x, ast.Call) and isinstance(x.func, ast.Name) and mod.has_cls(x.func.id) for x in st.iter.elts) \
+                    and len({x.func.id for x in st.iter.elts}) == 1:  # type: ignore[union-attr]
+                # rows are records (NamedTuple / dataclass) of a class of this module: bind the row arguments to its fields
+                rc_ = mod.cls(st.iter.elts[0].func.id)  # type: ignore[union-attr]
+                fields = [b_.target.id for b_ in rc_.body if isinstance(b_, ast.AnnAssign) and isinstance(b_.target, ast.Name)]
+                recs = []
+                for x in st.iter.elts:
+                    if any(isinstance(a_, ast.Starred) for a_ in x.args) or any(k_.arg is None for k_ in x.keywords) or len(x.args) > len(fields):  # type: ignore[union-attr]
+                        recs = []
+                        break
+                    rec = dict(zip(fields, x.args))  # type: ignore[union-attr]
+                    rec.update({k_.arg: k_.value for k_ in x.keywords})  # type: ignore[union-attr]
+                    recs.append(rec)
+                namef = [f_ for f_ in fields if recs and all(isinstance(r_.get(f_), ast.Constant) and isinstance(r_[f_].value, str) for r_ in recs)
+                         and any(r_[f_].value in AGGREGATES for r_ in recs)]
+                others_ = [f_ for f_ in fields if f_ not in namef]
+                if len(namef) == 1 and len(others_) == 1 and all(others_[0] in r_ for r_ in recs):
+                    if form is not None:
+                        raise Undecided('aggregates: more than one (aggregate name, targets) table')
+                    form, qn = 'loop', q0
+                    info = infos.get(q0)
+                    outer = info.cfg.stmt_nodes(st)[0] if info.cfg.stmt_nodes(st) else None
+                    nvar, dvar = f'{st.target.id}.{namef[0]}', f'{st.target.id}.{others_[0]}'
+                    rows = [(r_[namef[0]].value, r_[others_[0]]) for r_ in recs]
     if form is None:
         for q0, f0 in funcs.items():
             ps0 = _param_names(f0)
@@ -1082,8 +1126,8 @@ def r4(ctx: RuleCtx) -> None:
         ctx.require(got.get(name) == want, f'aggregate {name} is fed from {want[0]}({"benchmark=" + str(want[1]) if want[1] is not None else ""})', mod, qn,
                     f'aggregate {name}', f'aggregate `{name}` is fed from {got.get(name)}; the property requires {want}', anchor_node)
     # the element: outputs = name variable, rule phony, inputs = list filled in the inner loop
-    elems = [c for c in _own_calls(info.fn) if _is_ctor(c, ELEMENT) and isinstance(_elem_args(mod, c).get('outfilenames'), ast.Name)
-             and _elem_args(mod, c)['outfilenames'].id == nvar]  # type: ignore[attr-defined]
+    elems = [c for c in _own_calls(info.fn) if _is_ctor(c, ELEMENT) and _elem_args(mod, c).get('outfilenames') is not None
+             and norm(_elem_args(mod, c)['outfilenames']) == nvar]
     if len(elems) != 1:
         raise Undecided(f'aggregates: {len(elems)} elements named by the table variable')
     el = elems[0]
@@ -1104,8 +1148,9 @@ def r4(ctx: RuleCtx) -> None:
     comp = None
     if len(ldefs) == 1 and isinstance(ldefs[0], L.Def) and isinstance(ldefs[0].value, ast.ListComp):
         lc = ldefs[0].value
-        if len(lc.generators) == 1 and isinstance(lc.generators[0].iter, ast.Name) and lc.generators[0].iter.id == dvar and isinstance(lc.generators[0].target, ast.Name) \
-                and not lc.generators[0].ifs and info.reaching(dvar, ldefs[0].node) == info.reaching(dvar, en):
+        droot = dvar.split('.')[0]
+        if len(lc.generators) == 1 and norm(lc.generators[0].iter) == dvar and isinstance(lc.generators[0].target, ast.Name) \
+                and not lc.generators[0].ifs and info.reaching(droot, ldefs[0].node) == info.reaching(droot, en):
             comp = lc
         else:
             raise Undecided(f'aggregates: `{lst}` starts as the comprehension `{short(lc, 70)}`, a form the rule does not read')
@@ -1116,14 +1161,14 @@ def r4(ctx: RuleCtx) -> None:
         raise Undecided(f'aggregates: `{lst}` is created inside the table loop, but not as one empty list display')
     ctx.require(fresh, f'the input list `{lst}` starts empty for each aggregate', mod, qn, f'{lst} = []',
                 f'the input list `{lst}` of the aggregate statement is not re-created empty inside the table loop: aggregates would share inputs', el)
-    inner = [n for n in cfg.nodes if n.kind == 'iter' and isinstance(n.ast.iter, ast.Name) and n.ast.iter.id == dvar and isinstance(n.ast.target, ast.Name)]  # type: ignore[union-attr]
+    inner = [n for n in cfg.nodes if n.kind == 'iter' and norm(n.ast.iter) == dvar and isinstance(n.ast.target, ast.Name)]  # type: ignore[union-attr]
     if comp is not None:
         inner = [n for n in inner if any(id(c) in {id(x) for st in n.ast.body for x in ast.walk(st)} for _, c, _e in info.additions(lst))]  # type: ignore[union-attr]
     if len(inner) != (0 if comp is not None and not inner else 1):
         raise Undecided(f'aggregates: {len(inner)} loops over the aggregate targets')
     il = inner[0] if inner else ldefs[0].node  # type: ignore[union-attr]
     tv = il.ast.target.id if inner else comp.generators[0].target.id  # type: ignore[union-attr]
-    rd = info.reaching(dvar, il)
+    rd = info.reaching(dvar.split('.')[0], il)
     ctx.require(len(rd) == 1 and ((isinstance(rd[0], L.Def) and outer is not None and rd[0].node.id == outer.id) or (outer is None and rd[0] == L.ENTRY)),
                 'the inner loop iterates the targets of the current table row', mod, qn,
                 dvar, f'`{dvar}` is rebound between the table row and the loop over it', il.ast)
@@ -1750,6 +1795,11 @@ def r5(ctx: RuleCtx) -> None:
                 A_FORB = a
     if A_FORB is None or A_ROOT is None:
         raise Undecided(f'validate_forbidden_targets: atoms {tab.atoms()} do not contain the reserved-set / in_root tests')
+    if not any(prefix.startswith(cv) for cv in starts.values()):
+        # no prefix test that a name starting with the internal prefix is bound to satisfy: the rejection may be written in a form the
+        # table does not show (regular expression, lookup) - nothing can be concluded about such names
+        raise Undecided(f'validate_forbidden_targets: no startswith() test covers names that begin with the internal prefix {prefix!r}; '
+                        'the rejection may be written in another form')
     nw = np_ = 0
     badw = badp = None
     for wd in tab.worlds():
@@ -2169,7 +2219,7 @@ def r8(ctx: RuleCtx) -> None:
         lv = node.ast.targets[0].id
     if lv is None:
         raise Undecided('write(): the build line is not first bound to a local')
-    first_write = [n for n in w.cfg.nodes if any(call_name(c) == f'{ps[0]}.write' and c.args and isinstance(c.args[0], ast.Name) and c.args[0].id == lv for c in L.node_calls(n))]
+    first_write = [n for n in w.cfg.nodes if any(_uses_file(c, ps[0]) and any(isinstance(x, ast.Name) and x.id == lv for x in _written_exprs(c)) for c in L.node_calls(n))]
     if not first_write:
         raise Undecided('write(): the build line local is not written to the file')
     consts: T.List[str] = []
@@ -2190,15 +2240,22 @@ def r8(ctx: RuleCtx) -> None:
                 if isinstance(p_, ast.Call) and isinstance(p_.func, ast.Attribute) and p_.func.attr == 'join' and isinstance(p_.func.value, ast.Constant):
                     consts.append(str(p_.func.value.value))
                     for c in ast.walk(p_):
-                        if isinstance(c, ast.Call) and isinstance(c.func, ast.Name) and mod.has_func(c.func.id):
-                            b = L.bind_call(c, mod.func(c.func.id), False) or {}
-                            flag = b.get('is_build_line')
-                            if isinstance(flag, ast.Constant) and flag.value is True:
-                                if quoter not in (None, c.func.id):
-                                    raise Undecided('write(): paths of the build line are quoted by different functions')
-                                quoter = c.func.id
-                            elif any(isinstance(x, ast.Name) for x in c.args):
-                                raise Undecided(f'write(): `{short(c, 60)}` quotes a path of the build line without is_build_line=True')
+                        if not isinstance(c, ast.Call) or c is p_:
+                            continue
+                        res = _resolve_callee(mod, fi, c, at)
+                        if res is None:
+                            continue
+                        qn_, merged, implicit = res
+                        if 'is_build_line' not in _param_names(mod.func(qn_), skip_self=False):
+                            continue
+                        b = L.bind_call(merged, mod.func(qn_), implicit) or {}
+                        flag = b.get('is_build_line')
+                        if isinstance(flag, ast.Constant) and flag.value is True:
+                            if quoter not in (None, qn_):
+                                raise Undecided('write(): paths of the build line are quoted by different functions')
+                            quoter = qn_
+                        else:
+                            raise Undecided(f'write(): `{short(c, 60)}` quotes a path of the build line without is_build_line=True')
                 elif isinstance(p_, ast.Call) and isinstance(p_.func, ast.Name) and mod.has_func(p_.func.id) and depth < 3 and \
                         'is_build_line' not in _param_names(mod.func(p_.func.id), skip_self=False):
                     # a module-level helper that builds part of the line: harvest its return expressions
@@ -2244,7 +2301,7 @@ def r8(ctx: RuleCtx) -> None:
     # what the quoter escapes or rejects
     qf = mod.func(quoter)
     qi = L.FnInfo(mod, quoter, qf)
-    qp = _param_names(qf, skip_self=False)
+    qp = _param_names(qf, skip_self='.' in quoter and 'staticmethod' not in decorator_names(qf))
     text_p = qp[0]
     # the pattern used for build lines: `A if is_build_line else B`, or assigned under `if is_build_line:`; a single unconditional pattern also counts
     pats = []
@@ -2307,6 +2364,123 @@ def r8(ctx: RuleCtx) -> None:
 
 
 
+# ----------------------------------------------------------------------------
+# R9  isinstance chains: an arm for a subclass is not shadowed by an earlier arm for its base class that leaves (K7 chain order)
+# ----------------------------------------------------------------------------
+R9_SCOPE = ((BK, 'Backend.'), (NB, BACKEND + '.'), ('mesonbuild/interpreter/interpreterobjects.py', 'Test.'))
+
+
+def _isinstance_test(e: ast.AST) -> T.Optional[T.Tuple[str, T.List[str], bool]]:
+    pol = True
+    while isinstance(e, ast.UnaryOp) and isinstance(e.op, ast.Not):
+        pol = not pol
+        e = e.operand
+    if isinstance(e, ast.Call) and call_name(e) == 'isinstance' and len(e.args) == 2 and isinstance(e.args[0], ast.Name) and not e.keywords:
+        cl = e.args[1].elts if isinstance(e.args[1], ast.Tuple) else [e.args[1]]
+        names = [attr_chain(x) for x in cl]
+        if all(names):
+            return e.args[0].id, T.cast(T.List[str], names), pol
+    return None
+
+
+def r9(ctx: RuleCtx) -> None:
+    repo = ctx.repo
+    nfun = npairs = 0
+    for rel, prefix in R9_SCOPE:
+        mod = repo.module(rel)
+        for q, f in mod.funcs().items():
+            if not q.startswith(prefix) or q.count('.') != 1:
+                continue
+            subj: T.Dict[str, int] = {}
+            for x in walk_no_nested(f):
+                if isinstance(x, (ast.If, ast.While)):
+                    it = _isinstance_test(x.test)
+                    if it is not None:
+                        subj[it[0]] = subj.get(it[0], 0) + 1
+            if not any(v >= 2 for v in subj.values()):
+                continue
+            nfun += 1
+            info = _infos(ctx).get(q) if rel == NB else L.FnInfo(mod, q, f)
+            cfg = info.cfg
+            tests = []
+            for n in cfg.nodes:
+                if n.kind == 'test':
+                    it = _isinstance_test(n.ast.test)  # type: ignore[union-attr]
+                    if it is not None and subj.get(it[0], 0) >= 2:
+                        tests.append((n, it))
+
+            def classes(names: T.List[str]) -> T.Optional[T.List[T.Tuple[Module, ast.ClassDef]]]:
+                out = []
+                for nm in names:
+                    rc = repo.resolve_class(mod, nm)
+                    if rc is None:
+                        return None
+                    out.append(rc)
+                return out
+            for t1, (s1, c1, p1) in tests:
+                for t2, (s2, c2, p2) in tests:
+                    if t1 is t2 or s1 != s2:
+                        continue
+                    k1, k2 = classes(c1), classes(c2)
+                    if k1 is None or k2 is None:
+                        continue
+                    # every class tested by t2 is a (strict or equal) subclass of one tested by t1
+                    if not all(any(any(b[1] is x[1] for x in repo.mro(a[0], a[1])) for b in k1) for a in k2):
+                        continue
+                    if all(any(a[1] is b[1] for b in k1) for a in k2) and all(any(a[1] is b[1] for a in k2) for b in k1):
+                        continue        # the same classes tested again (after a re-binding or in another branch): not a shadowing question
+                    yes1 = [cfg.nodes[b] for b, lab in cfg.succ[t1.id] if lab is p1]
+                    no1 = [cfg.nodes[b] for b, lab in cfg.succ[t1.id] if lab is (not p1)]
+                    # t2 is evaluated only when t1 said "not an instance": reachable through the no-edge, not through the yes-edge, and t1 dominates it
+                    if t2.id in cfg.reachable(yes1, [t1], include_start=True) or t2.id not in cfg.reachable(no1, [t1], include_start=True) or not cfg.dominated_by_any(t2, [t1]):
+                        continue
+                    # the value must be the same object at both tests
+                    if [d.node.id if isinstance(d, L.Def) else d for d in info.reaching(s1, t1)] != [d.node.id if isinstance(d, L.Def) else d for d in info.reaching(s1, t2)]:
+                        continue
+                    npairs += 1
+                    yes2 = [cfg.nodes[b] for b, lab in cfg.succ[t2.id] if lab is p2]
+                    no2 = [cfg.nodes[b] for b, lab in cfg.succ[t2.id] if lab is (not p2)]
+                    same = cfg.reachable(yes2, [t2], include_start=True) == cfg.reachable(no2, [t2], include_start=True)
+                    if same:
+                        continue        # both outcomes of t2 continue alike: nothing is lost
+                    ctx.violation(mod, q, t2.ast.test, f'`{short(t2.ast.test, 70)}` is only evaluated after `{short(t1.ast.test, 70)}` was false, but {", ".join(c2)} '  # type: ignore[union-attr]
+                                  f'is a subclass of {", ".join(c1)}: the arm for the subclass can never be taken, values of that class are handled by the base-class arm', t2.ast)
+    ctx.floor('functions with an isinstance chain on one value', nfun, 1)
+    if not any(c.rule_id == 'C04.R9' and c.findings for c in ctx.check.ctxs):
+        ctx.ok(f'{nfun} functions with isinstance chains: no subclass arm is shadowed by an earlier base-class arm ({npairs} ordered base/subclass pairs looked at)')
+
+
+
+def _resolve_callee(mod: Module, fi: L.FnInfo, c: ast.Call, at: Node) -> T.Optional[T.Tuple[str, ast.Call, bool]]:
+    """Repository function a call goes to: a module function, a method of the element class (`self.m`, `Cls.m`), or a local bound to
+    functools.partial(f, ...) (the partial's arguments are merged into the call).  -> (qualified name, call with merged arguments, implicit first parameter)"""
+    import copy
+    from ..core import decorator_names as _dn
+    f = c.func
+    if isinstance(f, ast.Name):
+        if mod.has_func(f.id) and '.' not in f.id and not (f.id in fi.params or fi.defs().get(f.id)):
+            return f.id, c, False
+        rs = fi.reaching(f.id, at) if (f.id in fi.params or fi.defs().get(f.id)) else []
+        if len(rs) == 1 and isinstance(rs[0], L.Def) and rs[0].kind == 'assign' and isinstance(rs[0].value, ast.Call) and \
+                call_name(rs[0].value) in ('functools.partial', 'partial') and rs[0].value.args:
+            pc = rs[0].value
+            inner = ast.Call(func=pc.args[0], args=list(pc.args[1:]) + list(c.args), keywords=list(pc.keywords) + list(c.keywords))
+            ast.copy_location(inner, c)
+            got = _resolve_callee(mod, fi, inner, rs[0].node)
+            return got
+        return None
+    cn = call_name(c) or ''
+    if cn.count('.') == 1 and cn.split('.')[0] in ('self', 'cls', ELEMENT) and mod.has_func(f'{ELEMENT}.{cn.split(".")[1]}'):
+        q = f'{ELEMENT}.{cn.split(".")[1]}'
+        static = 'staticmethod' in _dn(mod.func(q))
+        c2 = c
+        if cn.split('.')[0] == ELEMENT and not static and c.args:
+            c2 = copy.copy(c)
+            c2.args = c.args[1:]
+        return q, c2, not static
+    return None
+
+
 def _membership(e: ast.AST) -> T.Optional[T.Tuple[ast.AST, ast.AST, bool]]:
     """Normal form of a membership test: `k in C`, `k not in C`, `k in C.keys()`, `C.get(k) is not None`, `C.get(k) is None`, `C.get(k) != None`
     -> (k, C, True if the test holds when k is present)."""
@@ -2355,4 +2529,5 @@ RULES = [
     Rule('C04.R6', 'an output name is joined with the directory of the target that owns it', r6),
     Rule('C04.R7', 'outputs[0] is re-assigned from filename after every write (no stale copy)', r7),
     Rule('C04.R8', 'every separator of the build line is escaped or rejected by the path quoting', r8),
+    Rule('C04.R9', 'no isinstance arm for a subclass is shadowed by an earlier base-class arm', r9),
 ]
